@@ -863,6 +863,11 @@ class Builtins:
             raise Unsupported(f"method {short} on opaque {self_obj.kind}")
         if isinstance(self_obj, (str, SStr, bytes)):
             return self.str_method(short, self_obj, pos, kw)
+        if isinstance(self_obj, SInt) and short == "to_bytes":
+            hook = self.cx.ghost.get("int_to_bytes")
+            if hook is None:
+                raise Unsupported("int.to_bytes without a model in the contract")
+            return hook(self.cx, self_obj, pos, kw)
         if isinstance(self_obj, tuple):
             if short == "index":
                 raise Unsupported("tuple.index")
@@ -970,6 +975,14 @@ class Builtins:
             for x in c[1:]:
                 t = str_concat(str_concat(t, s), x)
             return t
+        if short in ("encode", "decode"):
+            enc = kw.get("encoding", pos[0] if pos else "utf-8")
+            if not isinstance(enc, str):
+                raise Unsupported("symbolic encoding name")
+            hook = self.cx.ghost.get("codec")
+            if hook is None:
+                raise Unsupported("str.encode/bytes.decode without a codec model in the contract")
+            return hook(self.cx, short, s, enc.lower().replace("_", "-"))
         if short == "startswith":
             return SBool(z3.PrefixOf(str_term(pos[0]), str_term(s)))
         if short == "endswith":
